@@ -40,6 +40,9 @@ add("C09", "reference-interpreter runtime monitor: generated control-flow trees 
 add("C10", "reference-resolution runtime monitor over generated inheritance chains served from an in-memory loader; counting context function as evaluation probe",
     "Runtime exploration: random chains (depth 0-4, plus a sibling branch) with per-level override/inherit/nest/Super/dangling choices are rendered template by template (base before children exist, every chain member, siblings, everything again afterwards; FromFile or FromCache) and compared byte for byte with a reference resolution; invalid shapes must be compile errors; child top-level content must never be evaluated. Held = no deviation on the chains observed.",
     "Trusts the reference resolution (most-derived definition wins wherever placed; Super = next less-derived). Block recursion through Super is expected to end in an execution error. extends is always the first tag; ExecuteBlocks is not exercised.")
+add("C11", "recording-loader runtime monitor with a reference composition (output, fetch accounting, unreferenced-name check), canary files on the real file system, strace -f as OS-level secondary oracle (thorough)",
+    "Runtime exploration: random virtual trees over 1-3 recording loaders with acyclic include/extends/import/ssi graphs (static/lazy, with/only/if_exists, rooted/relative/.. names, shadowing copies in later loaders, includer-side shadowing) are rendered and compared with a reference composition; successful fetches per name must equal the number of references, no unreferenced name may be requested, missing names must be reported (or skipped with if_exists) at the right phase; canary files with the same names exist on the real file system and must never be served or (thorough tier, strace) even opened. Held = no deviation on the worlds observed.",
+    "All loaders resolve names like paths. The strace monitor covers one worker shard of 2000 worlds; cyclic graphs belong to C01.")
 add("C12", "reference-environment runtime monitor (probe variables around every construct) plus deep snapshots of the caller's Context and the set's Globals before/after every execution; key-validation probes",
     "Runtime exploration: random nestings of with/for/set/if/block/macro/include binding colliding names are probed before, inside and after every construct and compared with a reference scope model; every execution (successful or failing, with and without globals, through all four entry points) is followed by a reflect.DeepEqual comparison of the caller's Context and Globals with pristine copies, after the program sorted/reversed/sliced/iterated/shadowed caller data; invalid identifiers and macro-clashing keys must be refused. Held = no deviation on the executions observed.",
     "Trusts the reference scope model. Macro bodies only read parameters/own bindings/never-bound names; inside 'only' includes only pair names are probed (both corners unspecified).")
